@@ -239,7 +239,16 @@ class SGen(object):
                 scope[name] = typ
             else:
                 self.f('rtf')
-                s = '<xsl:variable name="%s">%s</xsl:variable>' % (name, self.body(max(depth - 1, 0), scope))
+                if r.random() < 0.2:
+                    # content that produces nothing is still content: the variable is a result tree fragment (true as a boolean), not an empty string
+                    self.f('rtf-empty')
+                    inner = r.choice(['<xsl:text/>', '<xsl:text></xsl:text>', '<xsl:if test="false()">x</xsl:if>', '<xsl:value-of select="\'\'"/>', '<xsl:for-each select="/.."><q/></xsl:for-each>', '<xsl:text/><xsl:text/>'])
+                else:
+                    inner = self.body(max(depth - 1, 0), scope)
+                s = '<xsl:variable name="%s">%s</xsl:variable>' % (name, inner)
+                if r.random() < 0.15:
+                    # what the variable is shows at once: a fragment is true, whatever it contains
+                    s += r.choice(['<xsl:value-of select="boolean($%s)"/>', '<xsl:if test="$%s">T</xsl:if>', '<xsl:value-of select="not($%s)"/>', '<xsl:value-of select="$%s = true()"/>']) % name
                 scope[name] = 'rtf'      # usable wherever a string is (gen_xpath.var), and compared like a node-set
             return s
         if k < 0.8:
